@@ -369,6 +369,27 @@ class Repo:
 
 
 # --------------------------------------------------------------------- AST utils
+def is_referenced(repo: "Repo", fn: ast.AST) -> bool:
+    """Is the function used anywhere in the package?  Public names count as used (callers outside the package); a PRIVATE function or method
+    (leading underscore) that no module mentions outside its own definition is dead code: whatever it does, no behaviour depends on it."""
+    name = getattr(fn, "name", "")
+    if not name.startswith("_") or (name.startswith("__") and name.endswith("__")):
+        return True
+    own = {id(x) for x in ast.walk(fn)}
+    # a helper the inliner dissolved into its callers is used (its call sites no longer mention it): "<module>:<caller> ← <helper>[ (expression)]"
+    if any(rec.split(" ← ")[-1].split(" ")[0] == name for rec in repo.inlined if " ← " in rec):
+        return True
+    for m in repo.modules.values():
+        for x in ast.walk(m.tree):
+            if id(x) in own:
+                continue
+            if (isinstance(x, ast.Name) and x.id == name) or (isinstance(x, ast.Attribute) and x.attr == name) or (isinstance(x, ast.Constant) and x.value == name):
+                return True
+            if isinstance(x, ast.alias) and x.name == name:
+                return True
+    return False
+
+
 def dotted(node: ast.AST) -> Optional[str]:
     """'a.b.c' for Name/Attribute chains; None otherwise."""
     parts = []
